@@ -361,3 +361,32 @@ Proof.
 Qed.
 
 End Hist.
+
+(* ---------- examples and the D43 residue over histories ---------- *)
+
+(* x_prog (nested DoDoer, a remove, a mid-pass raise) run, run again on the same
+   Doist, then its DoDoer 2 and doer 6 under a new Doist starting at tyme 20 *)
+Definition x_hist : list (rerun (T := Z)) := [RAgain (Some 2%Z) None; RFresh (Some 2%Z) 20%Z [2; 6]%N].
+
+Example x_hist_ok :
+  WXb (p_defs x_prog) = true /\ NE0b (p_defs x_prog) = true /\
+  oof (run_hist 10 100 false x_prog x_hist) = false /\
+  oof (run_hist 10 100 true x_prog x_hist) = false /\
+  (* the last run: enters 2 3 4 6 at tyme 20, forced exits 6, then 2 with its children 4, 3 inside *)
+  map (fun e => (e_kind e, e_id e)) (firstn 9 (trace (run_hist 10 100 false x_prog x_hist)))
+    = [(DoReturn, 0); (Exit, 2); (Exit, 3); (Cease, 3); (Exit, 4); (Cease, 4); (Cease, 2); (Exit, 6); (Cease, 6)]%N /\
+  doers (get_sched (run_hist 10 100 false x_prog x_hist) 0%N) = [2; 6]%N.
+Proof. vm_compute. repeat split. Qed.
+
+(* outside class W the leak of D43 survives into later runs: doer 4, entered under
+   the first Doist at tyme 0 and never exited, is recurred by DoDoer 2 under a NEW
+   Doist at tyme 10 without having been entered by it *)
+Theorem run_hist_complete_refuted :
+  exists (p : prog Z) (h : list rerun),
+    oof (run_hist 10 100 false p h) = false /\
+    events 4%N (run_hist 10 100 false p h) = [Enter; Recur; Recur; Cease; Exit] /\
+    In {| e_kind := Enter; e_id := 4%N; e_tyme := 0%Z |} (trace (run_hist 10 100 false p h)) /\
+    In {| e_kind := Recur; e_id := 4%N; e_tyme := 10%Z |} (trace (run_hist 10 100 false p h)).
+Proof.
+  exists d43_prog, [RFresh (Some 2%Z) 10%Z [2]%N]. vm_compute. repeat split; tauto.
+Qed.
